@@ -68,9 +68,17 @@ def ident(name):
     return "".join(ch if ch.isalnum() else "_" for ch in name)
 
 
+LINK_NAMES = {"lnk"}     # MC_Walk.MCLinkNames: directories of this name are symbolic links to a directory outside the input tree
+
+
 def materialise(tree, root):
-    for node in tree:
+    for node in sorted(tree, key=lambda n: len(n["path"])):
         d = os.path.join(root, *node["path"])
+        if node["path"] and node["path"][-1] in LINK_NAMES and not os.path.lexists(d):
+            target = os.path.join(os.path.dirname(os.path.abspath(root)), "linktargets", "_".join(node["path"]))
+            os.makedirs(target, exist_ok=True)
+            os.makedirs(os.path.dirname(d), exist_ok=True)
+            os.symlink(target, d)
         os.makedirs(d, exist_ok=True)
         for f in node["files"]:
             if f == "l1.cmake":
@@ -154,7 +162,7 @@ def run_case(beh, sandbox, prefix_arg=None, extra_rst=None, capture_effects=True
     elif kind in ("top", "sub"):
         outdir = os.path.join(inp, *cfg["out"]["path"])
     pats = [subst_pat(p, inp) for p in cfg["pats"]]
-    settings = Settings(input=InputSettings(recursive=cfg["recursive"], exclude_filters=pats,
+    settings = Settings(input=InputSettings(recursive=cfg["recursive"], exclude_filters=pats, follow_symlinks=bool(cfg.get("follow")),
                                             auto_exclude_directories_without_cmake=cfg["auto"]),
                         output=OutputSettings(directory=outdir),
                         rst=RSTSettings(module_path_separator=cfg["sep"], prefix=prefix_arg, **(extra_rst or {})))
@@ -220,6 +228,7 @@ def run_case(beh, sandbox, prefix_arg=None, extra_rst=None, capture_effects=True
             cli_pats, file_pats, user_pats = (pats[:1], pats[1:2], pats[2:]) if len(pats) >= 2 else ([], pats, [])
             with open(sfile, "w") as fh:
                 yaml.safe_dump({"input": {"recursive": cfg["recursive"], "auto_exclude_directories_without_cmake": cfg["auto"],
+                                          "follow_symlinks": bool(cfg.get("follow")),
                                           "exclude_filters": file_pats}, "rst": {"module_path_separator": cfg["sep"]},
                                 "logging": {"version": 1}}, fh)
             if user_pats:
@@ -505,7 +514,7 @@ def beh_fields(b):
     """descriptor of a walk behaviour for covering_sample: tree shape, patterns, options"""
     c = b["cfg"]
     return {"tree": json.dumps(b["tree"], sort_keys=True), "pats": "|".join(c["pats"]), "recursive": c["recursive"], "auto": c["auto"],
-            "sep": c["sep"], "out": c["out"]["kind"]}
+            "sep": c["sep"], "out": c["out"]["kind"], "follow": c.get("follow", False)}
 
 
 def replay(run, pid, behs, seed, limit=None):
@@ -623,7 +632,7 @@ def c18_case(beh, sandbox, n):
                 with open(pth, "w") as fh:
                     fh.write(STALE)
                 os.utime(pth, (4102444800, 4102444800))
-        s = {"input": {"recursive": cfg["recursive"], "auto_exclude_directories_without_cmake": cfg["auto"],
+        s = {"input": {"recursive": cfg["recursive"], "auto_exclude_directories_without_cmake": cfg["auto"], "follow_symlinks": bool(cfg.get("follow")),
                        "exclude_filters": [subst_pat(p, inp) for p in cfg["pats"]]},
              "rst": {}, "logging": yaml.safe_load(open(os.path.join(lib.CMINX_SRC, "cminx", "config_default.yaml")))["logging"]}
         for sec, vals in variant.items():
